@@ -100,18 +100,33 @@ Proof.
   - apply filter_all_false. intros n Hn. rewrite (keep_gov _ cm n _ (Hg n Hn)). exact E.
 Qed.
 
+(* Code::accept has its `visit_exception_table(self.exception_table)` statement *)
+Lemma count_one_exists {A} (p : A -> bool) l : Nat.eqb (length (filter p l)) 1 = true -> existsb p l = true.
+Proof.
+  intros H. destruct (filter p l) as [|x l'] eqn:E; [discriminate H|].
+  assert (Hin : In x (filter p l)) by (rewrite E; left; reflexivity).
+  apply filter_In in Hin as [Hin Hp]. apply existsb_exists. exists x. split; assumption.
+Qed.
+Lemma exc_replayed_ok T AT : code_shape_ok T AT = true -> exc_replayed AT = true.
+Proof.
+  unfold code_shape_ok, exc_replayed, count_steps. intros H.
+  repeat (apply andb_prop in H; destruct H as [H ?]).
+  apply count_one_exists. assumption.
+Qed.
+
 Lemma nb1_nested T AT v ct m kc :
   tok T -> afacts T AT ->
   nested_ok ct m (proj_ev T v ct m kc) (nb1 true T AT) (na1 T AT v kc).
 Proof.
   intros HT AF. constructor.
-  - intros attr ms ml fs es c Hb. cbn [nb1 nb_code] in Hb. unfold build_code in Hb.
+  - intros attr ms ml fs xr es c Hb. cbn [nb1 nb_code] in Hb. unfold build_code in Hb.
     destruct (forallb (stores_into (rt_code T) STACK_MAP_FRAME) fs) eqn:Efs; [|discriminate].
     cbn [proj_ev]. destruct (keep_ct ct m attr); [|reflexivity].
     cbn [na1 na_code]. unfold accept_code. constructor; [|constructor].
     destruct kc as [cm|]; [|reflexivity].
     cbn [sim_item]. repeat split.
     + symmetry. exact (frames_filter T AT [] cm fs (tk_code T HT) (af_shape _ _ AF) Efs).
+    + rewrite (exc_replayed_ok T AT (af_shape _ _ AF)). reflexivity.
     + exact (leaf_replay (rt_code T) [] (at_code AT) AT cm es c (tk_code T HT) (af_code _ _ AF) Hb).
   - intros attr i n d es c Hb. cbn [nb1 nb_rc] in Hb. unfold build_rc in Hb.
     cbn [proj_ev]. destruct (keep_ct ct m attr); [|reflexivity].
@@ -207,7 +222,7 @@ Qed.
 
 (* ---------- the output of ClassFile::accept, taken apart ---------- *)
 Lemma run_step_attr_level {K} ct ac AT (na : naccept K) m st s :
-  (forall attr ms ml fs k, forallb is_attr_level (na_code na attr ms ml fs k) = true) ->
+  (forall attr ms ml fs xr k, forallb is_attr_level (na_code na attr ms ml fs xr k) = true) ->
   (forall attr i n d k, is_attr_level (na_rc na attr i n d k) = true) ->
   forallb is_attr_level (run_step ct ac AT na m st s) = true.
 Proof.
@@ -215,7 +230,7 @@ Proof.
     repeat match goal with
            | |- context [if ?b then _ else _] => destruct b
            | |- context [match ?x with Some _ => _ | None => _ end] => destruct x
-           | |- context [match ?x with VBody _ => _ | VSrcs _ => _ end] => destruct x
+           | |- context [match ?x with VBody _ => _ | VRows _ => _ end] => destruct x
            | |- context [let (_, _) := ?x in _] => destruct x
            end; try reflexivity; try apply Hc.
   - induction (it_unknown st); [reflexivity|]. cbn [map forallb]. exact IHl.
@@ -230,7 +245,7 @@ Lemma filter_id {A} (p : A -> bool) l : forallb p l = true -> filter p l = l.
 Proof. intros H. apply filter_all_true. intros x Hx. exact (forallb_In' _ _ _ H Hx). Qed.
 
 Lemma na1_attr_level T AT v kc :
-  (forall attr ms ml fs c, forallb is_attr_level (na_code (na1 T AT v kc) attr ms ml fs c) = true)
+  (forall attr ms ml fs xr c, forallb is_attr_level (na_code (na1 T AT v kc) attr ms ml fs xr c) = true)
   /\ (forall attr i n d c, is_attr_level (na_rc (na1 T AT v kc) attr i n d c) = true).
 Proof. split; intros; cbn [na1 na_code na_rc]; unfold accept_code, accept_rc; [destruct kc|]; reflexivity. Qed.
 
